@@ -41,5 +41,7 @@ func (e errorHandler) ServeHTTP(w http.ResponseWriter, r *http.Request) {
 		return
 	}
 
-	e.LogWriter.Error(fmt.Sprintf("request error from (%s) %s: %+v", r.RemoteAddr, r.URL.String(), err))
+	// Only the path is logged: the query string of mail link routes
+	// (confirm, recover, 2fa e-mail verify) carries the mailed token.
+	e.LogWriter.Error(fmt.Sprintf("request error from (%s) %s: %+v", r.RemoteAddr, r.URL.Path, err))
 }
